@@ -294,6 +294,8 @@ def run(ctx):
     t, cf = tlcmod.gen_mc(ctx.work, "RootLoop", "MC_RL", base, invariants=INVS)
     r = ctx.model_check(t, cf, workers=16, coverage=True, label="exhaustive", timeout=900)
     ctx.check_proof("RootLoop_proofs")         # the same invariants for every iteration budget
+    from vlib import resulthistory
+    resulthistory.replay(ctx, ["rootfinder:broyden1", "rootfinder:newton", "equilibrium:anderson", "minimize:gd", "minimize:adam"], "rootloop")
     ctx.check_coverage(r, ["NlStart", "NlIter", "NlExhaust", "NlReturn", "AaStart", "AaIter", "AaExhaust", "AaReturn", "OptStart", "OptIter", "OptExhaust", "OptReturn"])
     for sw, inv in (("ReturnTested", None), ("ZeroResidualStops", "NoRaiseAtRoot"), ("EarlyFixedPoint", "SilentMeetsTol"),
                     ("WarnIffNotConverged", "WarnedIffNotConverged")):
